@@ -60,6 +60,12 @@ fn rand_letters(r: &mut Rng) -> String {
   let n = r.below(18); let spaces = r.below(4);
   (0..n).map(|_| if r.below(4) < spaces { ' ' } else { alpha[r.below(alpha.len())] }).collect()
 }
+// arbitrary text: up to 80 characters of mixed UTF-8 widths (1 to 4 bytes), so that every byte offset is, for some draw, not a character boundary
+fn rand_text(r: &mut Rng) -> String {
+  let alpha: Vec<char> = "aZ_9 @\"\\\u{e9}\u{df}\u{65e5}\u{672c}\u{1f600}\u{0}\n".chars().collect();
+  let n = [0, 1, 3, 9, 17, 33, 80][r.below(7)] + r.below(3);
+  (0..n).map(|_| alpha[r.below(alpha.len())]).collect()
+}
 fn count_nodes(v: &serde_json::Value) -> usize { 1 + match v { serde_json::Value::Array(a) => a.iter().map(count_nodes).sum::<usize>(), serde_json::Value::Object(o) => o.values().map(count_nodes).sum::<usize>(), _ => 0 } }
 fn mutate_at(v: &mut serde_json::Value, idx: &mut usize, r: &mut Rng) -> bool {
   use serde_json::Value as V;
@@ -70,7 +76,7 @@ fn mutate_at(v: &mut serde_json::Value, idx: &mut usize, r: &mut Rng) -> bool {
       V::Object(o) if op < 4 && !o.is_empty() => { let keys: Vec<String> = o.keys().cloned().collect(); let k = keys[r.below(keys.len())].clone(); match op {
         0 => { o.remove(&k); }, 1 => { o.insert(["extra", "from", "to", "repeat", "absorbing", "row", "letters", "Special"][r.below(8)].to_string(), rand_atom(r)); },
         2 => { if let Some(x) = o.remove(&k) { o.insert(["From", "to", "from", "letters", "row"][r.below(5)].to_string(), x); } }, _ => { let x = rand_atom(r); o.insert(k, x); } } },
-      V::String(s) if op < 4 => { *s = match op { 0 => rand_letters(r), 1 => ["@x", "@y", "@undefined", "", " ", "\u{0}"][r.below(6)].to_string(), 2 => KEYS[r.below(8)].to_string(), _ => format!("{}{}", s, s) }; },
+      V::String(s) if op < 4 => { *s = match op { 0 => if r.below(2) == 0 { rand_letters(r) } else { rand_text(r) }, 1 => ["@x", "@y", "@undefined", "", " ", "\u{0}", "@", "Q", "q", "disabled", "NORMAL"][r.below(11)].to_string(), 2 => KEYS[r.below(8)].to_string(), _ => format!("{}{}", s, s) }; },
       V::Number(_) if op < 4 => { *v = [serde_json::json!(-1), serde_json::json!(0), serde_json::json!(4294967296u64), serde_json::json!(0.5), serde_json::json!(i64::MIN), serde_json::json!(u64::MAX)][r.below(6)].clone(); },
       _ => { *v = rand_atom(r); },
     }
@@ -312,6 +318,36 @@ pub fn check_c13_program(p: &Vec<PItem>) -> Result<bool, String> {
   Ok(true)
 }
 
+
+/// bounded stand-in for the part of the load path no contract reaches (the JSON front end, layout_parsing_formatting.rs: serde_json::Value): exactly `n`
+/// generated inputs, seeded - random layouts and structure-aware mutations of valid ones - through the real loader, the mapper and the loop; a panic is a failure
+pub fn loader_fuzz_bounded(n: u64, seed: u64) -> i32 {
+  std::panic::set_hook(Box::new(|_| {}));
+  let mut r = Rng(seed.wrapping_mul(0x9E3779B97F4A7C15) | 1);
+  let (mut accepted, mut rejected, mut via_file) = (0u64, 0u64, 0u64);
+  let mut fails: Vec<serde_json::Value> = Vec::new();
+  for i in 0..n {
+    let text = if i % 3 == 0 { gen_json(&mut r) } else { gen_mutated_json(&mut r) }; let s = r.next();
+    let t2 = text.clone();
+    match std::panic::catch_unwind(move || load(&t2).is_ok()) { Ok(true) => accepted += 1, Ok(false) => rejected += 1, Err(_) => {} }
+    if let Err(m) = check_c14(&text, s) { if fails.len() < 3 { fails.push(serde_json::json!({"input": format!("layout-file {} {}", s, text), "what": m})); } else { break; } }
+    // every 64th input also goes through the REAL layout_loading::load_layout_from_file (from a scratch file): it must not panic and must give what
+    // parse + convert give in memory (the chain the other cases use), so that `load` above is demonstrably the path the program takes
+    if i % 64 == 0 {
+      let path = std::env::temp_dir().join(format!("tmharness-{}.json", std::process::id()));
+      if std::fs::write(&path, &text).is_ok() {
+        let ps = path.to_str().unwrap().to_string(); let t3 = text.clone();
+        let same = std::panic::catch_unwind(move || { let a = crate::layout_loading::load_layout_from_file(&ps); let b = load(&t3); match (a, b) { (Ok(x), Ok(y)) => x.mappings == y.mappings, (Err(_), Err(_)) => true, _ => false } });
+        via_file += 1;
+        match same { Ok(true) => {}, Ok(false) => { if fails.len() < 3 { fails.push(serde_json::json!({"input": format!("layout-file {} {}", s, text), "what": "load_layout_from_file and parse + convert disagree on this file"})); } },
+                     Err(_) => { if fails.len() < 3 { fails.push(serde_json::json!({"input": format!("layout-file {} {}", s, text), "what": "load_layout_from_file panicked"})); } } }
+      }
+    }
+  }
+  let _ = std::fs::remove_file(std::env::temp_dir().join(format!("tmharness-{}.json", std::process::id())));
+  println!("{}", serde_json::json!({"inputs": n, "accepted": accepted, "rejected": rejected, "through_load_layout_from_file": via_file, "failures": fails}));
+  if fails.is_empty() { 0 } else { 1 }
+}
 
 /// bounded stand-in for the part of C13 no contract states (WHEN the converter accepts): exactly `n` generated programs, seeded, each loaded through the real
 /// path and compared with the hand-written expansion in both directions (accepted ⇒ equal; a usable hand-written expansion ⇒ accepted; never a panic)
